@@ -15,6 +15,7 @@ package c06
 import (
 	"fmt"
 	"math"
+	"math/big"
 	"regexp"
 	"strconv"
 	"strings"
@@ -279,7 +280,7 @@ func structEq(a, b Val) (int, string) {
 		if a.K == "nil" || b.K == "nil" {
 			return sNEQ, "nil-leaf"
 		}
-		return sUNDEF, "container-vs-leaf"
+		return sUNDEF, "vs-leaf"
 	}
 	// two leaves
 	if a.K == "nil" && b.K == "nil" {
@@ -366,7 +367,18 @@ func ref(a, b Val) (defined, want bool, clause string) {
 	cls, d := numeral(s.S)
 	switch cls {
 	case "int", "float":
-		return true, numEq(d, n), "str-num-" + cls + "-numeral"
+		want := numEq(d, n)
+		if cls == "float" && n.K == "int" && want {
+			// The numeral is not in integer form, the number is an integer: the rule above
+			// rounds the numeral to a float64 first. When the real number the numeral
+			// spells is not exactly the integer ("9.007199254740992e15" against
+			// 9007199254740993, "1.00000000000000000001" against 1) a reading that compares
+			// the exact denotation says false; the statement does not choose.
+			if r, ok := new(big.Rat).SetString(s.S); !ok || r.Cmp(new(big.Rat).SetInt64(n.I)) != 0 {
+				return false, false, "str-num-float-numeral-rounds-to-int"
+			}
+		}
+		return true, want, "str-num-" + cls + "-numeral"
 	case "plain":
 		return true, false, "str-num-not-numeral"
 	}
@@ -547,7 +559,7 @@ func genLeaf(t *rapid.T) Val {
 var strKeys = []string{"a", "b", "c", "k", "", "1", "x y", "A"}
 
 func genContainer(t *rapid.T, depth int) Val {
-	n := rapid.SampledFrom([]int{0, 0, 1, 1, 1, 2, 2, 2, 3, 3, 4}).Draw(t, "n")
+	n := []int{0, 1, 1, 2, 2, 2, 3, 3, 4}[uniform(t, 9, "n")]
 	v := Val{K: "slice"}
 	isMap := rapid.IntRange(0, 2).Draw(t, "map?") == 0
 	if isMap {
@@ -661,11 +673,13 @@ func differentSameType(t *rapid.T, l Val) Val {
 
 func isPrimNonNil(v Val) bool { return !v.isContainer() && v.K != "nil" }
 
+var mutations = []string{"copy", "copy", "copy", "leaf-same-type", "leaf-same-type", "leaf-same-type",
+	"leaf-num-type", "leaf-to-nil", "leaf-cross-type", "length", "length", "key-rename", "kind-switch", "reorder"}
+
 // mutate returns a copy of container a changed in one place; label names the change.
 func mutate(t *rapid.T, a Val) (Val, string) {
 	b := a.clone()
-	m := rapid.SampledFrom([]string{"copy", "copy", "copy", "leaf-same-type", "leaf-same-type", "leaf-same-type",
-		"leaf-num-type", "leaf-to-nil", "leaf-cross-type", "length", "length", "key-rename", "kind-switch", "reorder"}).Draw(t, "mut")
+	m := mutations[uniform(t, len(mutations), "mut")]
 	switch m {
 	case "leaf-same-type":
 		if p, ok := pick(t, b, func(v Val) bool { return isPrimNonNil(v) && !(v.K == "float" && math.IsNaN(v.f())) }); ok && len(p) > 0 {
@@ -761,6 +775,19 @@ func mutate(t *rapid.T, a Val) (Val, string) {
 	return b, "length"
 }
 
+// uniform draws an index in [0,n), n <= 64, without rapid's bias towards small
+// integers (rapid.Bool is a plain bit); all-false still shrinks to index 0.
+func uniform(t *rapid.T, n int, label string) int {
+	v := 0
+	for i := 0; i < 12; i++ {
+		v <<= 1
+		if rapid.Bool().Draw(t, label) {
+			v |= 1
+		}
+	}
+	return v % n
+}
+
 var shapes = []string{
 	"same", "same",
 	"int-float", "int-float", "int-float",
@@ -775,7 +802,7 @@ var shapes = []string{
 }
 
 func genCase(t *rapid.T) Case {
-	rel := rapid.SampledFrom(shapes).Draw(t, "shape")
+	rel := shapes[uniform(t, len(shapes), "shape")]
 	var a, b Val
 	switch rel {
 	case "same":
@@ -1127,5 +1154,5 @@ func TestC06(t *testing.T) {
 	c := h.New(t, "C06")
 	defer c.Finish()
 	c.Rule("ordered pairs (a,b) over nil, bool, int64/float64 edge pools (NaN included), numeral strings derived with strconv from those numbers (sign, leading zeros, fraction, exponent), near-numerals, plain strings, nested slices/maps (depth<=3) paired as copies / one same-typed leaf changed / one leaf changed in numeric type only / length changed / key renamed / kind switched / reordered; every pair evaluated as a==b, b==a, a!=b, b!=a, a in [b], b in [a], switch a{case b}, switch b{case a} and (numeric) a<=b&&a>=b, with literal and with variable operands; laws always asserted, reference value only where the statement defines one; non-trivial = cross-type pair, or both containers, or a number of magnitude >= 1e6; distinct by the spelling of (a,b)")
-	h.Run(c, "pairs", c.N(50000, 400000), genCase, oracle)
+	h.Run(c, "pairs", c.N(50000, 500000), genCase, oracle)
 }
